@@ -442,7 +442,7 @@ def check_misuse(X, cls, obj, buf, want, ctx, rnd, P):
     """C11: operations that cannot be honoured raise and change nothing"""
     tk = type_key(X, cls)
 
-    def expect_error(key, fn, **kw):
+    def expect_error(key, fn, values_only=False, **kw):
         before = image(buf)
         try:
             fn()
@@ -453,7 +453,16 @@ def check_misuse(X, cls, obj, buf, want, ctx, rnd, P):
         after = image(buf)
         if raised is None:
             P.add("C11", f"accepted:{key}", **kw, **ctx)
-        if before != after[:len(before)]:
+        if values_only:
+            # a refused *construction* may have taken (and written into) fresh space of the buffer: what the statement protects is the
+            # value of every existing object
+            try:
+                now = plain(X, obj)
+            except Exception as e:  # noqa
+                now = f"raised {type(e).__name__}"
+            if not eq(now, want):
+                P.add("C11", f"side-effect:{key}", raised=repr(raised)[:100], **kw, **ctx)
+        elif before != after[:len(before)]:
             P.add("C11", f"side-effect:{key}", raised=repr(raised)[:100], **kw, **ctx)
 
     if X.array.is_array(cls):
@@ -476,7 +485,7 @@ def check_misuse(X, cls, obj, buf, want, ctx, rnd, P):
             # an array value of higher rank whose leading extents agree with the array's shape: more items than the array has room for
             hi = np.zeros(shape + (3,), dtype=cls._itemtype._dtype)
             expect_error(f"update-ndarray-of-higher-rank:{r}d", lambda: obj._update(hi), value_shape=hi.shape)
-            expect_error(f"construct-from-ndarray-of-higher-rank:{r}d", lambda: cls(hi, _buffer=buf), value_shape=hi.shape)
+            expect_error(f"construct-from-ndarray-of-higher-rank:{r}d", lambda: cls(hi, _buffer=buf), values_only=True, value_shape=hi.shape)
         if r == 1:
             item = want[0] if len(want) else None
             longer = list(want) + [want[0]] if len(want) else None
